@@ -685,7 +685,11 @@ def C23(ctx):
     for b in bad[:30]:
         e = evs[b]
         what = "reported equal" if "valid" in (e["eq"], e["eqn"]) else "reported valid extension"
-        ctx.violation("unsound verdict: %s (root kind %s)" % (what, e["base"]["s"][0]["k"]),
+        def bp(d):
+            return {(False, False): "unbounded", (True, False): "lower only", (False, True): "upper only", (True, True): "both bounds"}[(d["lo"]["some"], d["hi"]["some"])]
+        b0, n0 = e["base"]["s"][0], e["new"]["s"][0]
+        detail = ", %s -> %s" % (bp(b0), bp(n0)) if b0["k"] == n0["k"] and b0["k"] in ("U8", "String", "Array", "Map") else ""
+        ctx.violation("unsound verdict: %s (root kind %s%s)" % (what, e["base"]["s"][0]["k"], detail),
                       "%s but the payload sets differ: %s" % (what, json.dumps(edit_summary(e))),
                       {"pair": {"base": e["base"], "new": e["new"]}, "verdicts": edit_summary(e)["verdicts"]})
     stats = collections.Counter()
@@ -713,13 +717,13 @@ def C23(ctx):
     nontrivial = sum(1 for e in evs if "valid" in (e["eq"], e["ext"], e["eqn"], e["extn"]))
     return {"exhaustive": True, "distinct_nontrivial": nontrivial, "pairs": len(pairs), "pairs_per_generator": per_run,
             "verdict_classes": dict(stats), "payload_universe": universe, "forged_verdicts_rejected": "%d/%d" % (len(got), len(rej)),
-            "rule": "schema pairs enumerated by TLC: 16 base schemas (tuples, enums, arrays, maps, strings, validated U8, nested, shared, "
-                    "recursive types, well-known leaves) x all single edits and %s double edits (add / remove / renumber variants, add / remove / "
+            "rule": "schema pairs enumerated by TLC: 32 base schemas (tuples, enums, arrays, maps, strings, validated U8, nested, shared, "
+                    "recursive types, well-known leaves; plus the validation family: U8 / String / Array / Map roots with each bound independently absent / present, whose edits replace both bounds by every combination of none/0/1/2/3) x all single edits and %s double edits (add / remove / renumber variants, add / remove / "
                     "swap fields, widen / narrow / drop / add validations, redirect child references, replace types by Any / Bool / U8 / "
                     "unit / array, rename types / fields / variants, append unreachable types); both real schemas built and validated, "
                     "compare_single_type_schemas run with require_equality() and allow_extension() (also with all name changes allowed); "
                     "for every reported valid extension TLC checks Valid(old) => Valid(new), for every reported equality Valid(old) <=> "
-                    "Valid(new), over the complete bounded payload universe (every value tree of <= 3 nodes plus 4-node chains / triples / "
+                    "Valid(new), over the complete bounded payload universe (every value tree of <= 3 nodes plus 4-node chains / triples / length ladders of 0..5 elements / "
                     "two-cell lists); distinct = pairs with at least one 'valid' verdict" % ("a 1/40 sample of" if q else "half of all")}
 
 
